@@ -124,11 +124,11 @@ class RefSpline:
         if grid is not None:
             for ax in range(self.d):
                 t, p = self.kvs[ax]
-                C = np.abs(rb.colloc(t, p, grid[ax], der[ax]))
+                C = np.abs(rb.colloc(t, p, grid[ax], der[ax], absolute=True))
                 out = np.moveaxis(np.tensordot(C, out, axes=(1, ax)), 0, ax)
             return out
         pts_axis = np.asarray(pts_xyz, dtype=float).reshape(-1, self.d)[:, ::-1]
-        Cs = [np.abs(rb.colloc(self.kvs[ax][0], self.kvs[ax][1], pts_axis[:, ax], der[ax])) for ax in range(self.d)]
+        Cs = [np.abs(rb.colloc(self.kvs[ax][0], self.kvs[ax][1], pts_axis[:, ax], der[ax], absolute=True)) for ax in range(self.d)]
         letters = "abcdefg"[:self.d]
         expr = ",".join("z" + l for l in letters) + "," + letters + "...->z..."
         return np.einsum(expr, *Cs, out)
